@@ -2,10 +2,10 @@
 //!
 //! Read the `windows` module for reference.
 
+use std::cell::RefCell;
 use std::ffi::c_int;
 use std::io::{self, Write};
 use std::ptr::{self, NonNull, null_mut};
-use std::slice;
 
 use memchr_rs::memchr;
 
@@ -78,26 +78,52 @@ impl VirtualMemory for UnixVirtualMemory {
 
 pub struct UnixStdin;
 
+thread_local! {
+    /// Input that an earlier `read_line` call received after the end of its line.
+    /// `read(2)` returns whatever is available, which can be several lines at once
+    /// (pipes, files, pasted text). Those bytes belong to the calls that follow.
+    static CARRY: RefCell<Vec<u8>> = const { RefCell::new(Vec::new()) };
+}
+
 impl Stdin for UnixStdin {
     fn read_line<'a>(prompt: &Value<'a>, arena: &'a Arena) -> Result<ArenaString<'a>, io::Error> {
         print!("{prompt}");
         io::stdout().flush()?;
 
-        let mut cap = 8 * KIBI;
-        let mut buf = ArenaString::with_capacity_in(cap, arena);
-        let mut len = 0;
+        let mut buf = ArenaString::with_capacity_in(8 * KIBI, arena);
+        // SAFETY: The line is handed out exactly as it was read, same as before.
+        let line = unsafe { buf.as_mut_vec() };
 
+        // Whatever the previous call read past its own line comes first.
+        CARRY.with_borrow_mut(|carry| {
+            line.extend_from_slice(carry);
+            carry.clear();
+        });
+
+        let mut scanned = 0;
         loop {
-            if len == cap {
-                cap *= 2;
-                buf.reserve_exact(cap - buf.capacity());
+            let index = memchr(b'\n', line, scanned);
+            if index < line.len() {
+                // Keep the bytes after the newline for the next call.
+                CARRY.with_borrow_mut(|carry| carry.extend_from_slice(&line[index + 1..]));
+                line.truncate(index);
+                break;
+            }
+            scanned = line.len();
+
+            if line.len() == line.capacity() {
+                // `reserve` counts from the length, so this doubles the buffer
+                // and keeps what was read so far.
+                line.reserve(line.capacity());
             }
 
-            let count = cap - len;
-            let base = buf.as_ptr();
-
+            let spare = line.spare_capacity_mut();
             let n = unsafe {
-                libc::read(libc::STDIN_FILENO, base.add(len) as *mut libc::c_void, count)
+                libc::read(
+                    libc::STDIN_FILENO,
+                    spare.as_mut_ptr().cast::<libc::c_void>(),
+                    spare.len(),
+                )
             };
             if n < 0 {
                 return Err(io::Error::last_os_error());
@@ -106,20 +132,10 @@ impl Stdin for UnixStdin {
                 // EOF
                 break;
             }
-            let n = n.cast_unsigned();
 
-            len += n;
-
-            let hay = unsafe { slice::from_raw_parts(base, len) };
-            let index = memchr(b'\n', hay, len - n);
-            if index < len {
-                len = index;
-                break;
+            unsafe {
+                line.set_len(line.len() + n.cast_unsigned());
             }
-        }
-
-        unsafe {
-            buf.as_mut_vec().set_len(len);
         }
 
         Ok(buf)
